@@ -82,10 +82,9 @@ class Module:
         self.relpath = relpath
         self.source = source
         self.lines = source.splitlines()
-        raw = ast.parse(source, filename=path)
+        self.tree = ast.parse(source, filename=path)  # raw until finish() has run
         self.digest = hashlib.sha256(source.encode()).hexdigest()[:16]
-        self.renamed_locals = _alpha_normalise(raw, relpath, self.digest)  # first: the canonical operand order depends on names
-        self.tree = canonicalise(raw)
+        self.renamed_locals = 0
         self.funcs: dict[str, Func] = {}  # top-level functions by name
         self.classes: dict[str, Class] = {}
         self.imports: dict[str, str] = {}  # local alias -> dotted target
@@ -250,16 +249,9 @@ _LOCALNAMES: dict | None = None
 
 def _alpha_normalise(tree: ast.AST, relpath: str, digest: str | None = None) -> int:
     """rename recognised function locals back to the reference names (sa/alpha.py)"""
-    global _LOCALNAMES
     if os.environ.get("VERIF_NO_ALPHA"):
         return 0
-    if _LOCALNAMES is None:
-        import json
-        try:
-            _LOCALNAMES = json.load(open(os.path.join(os.path.dirname(os.path.abspath(__file__)), "localnames.json")))
-        except OSError:
-            _LOCALNAMES = {}
-    ref = _LOCALNAMES.get(relpath)
+    ref = _localnames().get(relpath)
     if not ref or (digest is not None and ref.get("__digest__") == digest):
         return 0
     from . import alpha
@@ -271,6 +263,51 @@ def canonicalise(tree: ast.AST) -> ast.AST:
     tree = _CanonStmts().visit(tree)
     ast.fix_missing_locations(tree)
     return tree
+
+
+def _finish_modules(modules: dict) -> None:
+    """Normalisation of all parsed modules (DESIGN.md 1.4): private-function names back to the reference
+    names (package-wide, because callers live in other modules), then per module the function locals,
+    then the canonical spellings."""
+    ref = _localnames()
+    if not os.environ.get("VERIF_NO_ALPHA") and ref:
+        from . import alpha
+        mapping: dict[str, str] = {}
+        defined: dict[str, int] = {}
+        for m in modules.values():
+            for node in ast.walk(m.tree):
+                if isinstance(node, (ast.FunctionDef, ast.AsyncFunctionDef, ast.ClassDef)):
+                    defined[node.name] = defined.get(node.name, 0) + 1
+        votes: dict[str, list[str]] = {}
+        for m in modules.values():
+            r = ref.get(m.relpath)
+            if not r or r.get("__digest__") == m.digest or "__funcs__" not in r:
+                continue
+            for new, old in alpha.private_renames(m.tree, r["__funcs__"]):
+                votes.setdefault(new, []).append(old)
+        for new, olds in votes.items():
+            # references are renamed package-wide by simple name: every definition carrying the new name must be a
+            # recognised rename of the same reference name, and that reference name must be free
+            if len(set(olds)) == 1 and len(olds) == defined.get(new, 0) and defined.get(olds[0], 0) == 0 \
+                    and olds[0] not in mapping.values():
+                mapping[new] = olds[0]
+        if mapping:
+            for m in modules.values():
+                alpha.apply_name_renames(m.tree, mapping)
+    for m in modules.values():
+        m.renamed_locals = _alpha_normalise(m.tree, m.relpath, m.digest)  # before canonicalise: operand order depends on names
+        m.tree = canonicalise(m.tree)
+
+
+def _localnames() -> dict:
+    global _LOCALNAMES
+    if _LOCALNAMES is None:
+        import json
+        try:
+            _LOCALNAMES = json.load(open(os.path.join(os.path.dirname(os.path.abspath(__file__)), "localnames.json")))
+        except OSError:
+            _LOCALNAMES = {}
+    return _LOCALNAMES
 
 
 def dotted(node) -> str | None:
@@ -302,6 +339,7 @@ class Program:
             for modname, src in sources.items():
                 rel = modname.replace(".", "/") + ".py"
                 self.modules[modname] = Module(modname, rel, rel, src)
+            _finish_modules(self.modules)
             for m in self.modules.values():
                 self._index_module(m)
         else:
@@ -337,6 +375,7 @@ class Program:
                 except SyntaxError as e:
                     raise AnalysisError(f"cannot parse {rel}: {e}")
                 self.modules[modname] = m
+        _finish_modules(self.modules)
         for m in self.modules.values():
             self._index_module(m)
 
